@@ -19,6 +19,10 @@ type C07Case struct {
 	Excess   float64    `json:"excess_coeff"`
 	Disjoint float64    `json:"disjoint_coeff"`
 	Mutdiff  float64    `json:"mutdiff_coeff"`
+	// genome ids of the two sides: the distance is a function of the genes only, ids are not unique in the library
+	// (children are numbered per species, organisms are renumbered after every epoch)
+	IdA int `json:"id_a"`
+	IdB int `json:"id_b"`
 }
 
 func genMutNum() *rapid.Generator[float64] {
@@ -121,6 +125,7 @@ func GenC07() *rapid.Generator[C07Case] {
 		if rapid.Bool().Draw(t, "swap") {
 			c.A, c.B = c.B, c.A
 		}
+		c.IdA, c.IdB = rapid.IntRange(0, 3).Draw(t, "id a"), rapid.IntRange(0, 3).Draw(t, "id b")
 		return c
 	})
 }
@@ -151,7 +156,10 @@ func checkDistance(name string, got, ref float64) error {
 }
 
 func CheckC07(c C07Case, rec *Rec) error {
-	a, b := compatGenome(1, c.A), compatGenome(2, c.B)
+	a, b := compatGenome(c.IdA, c.A), compatGenome(c.IdB, c.B)
+	if c.IdA == c.IdB {
+		rec.Class("both genomes carry the same id")
+	}
 	opts := &neat.Options{ExcessCoeff: c.Excess, DisjointCoeff: c.Disjoint, MutdiffCoeff: c.Mutdiff}
 	e, d, m, w := RefCompatParts(c.A, c.B)
 	ref := c.Excess*float64(e) + c.Disjoint*float64(d) + c.Mutdiff*w
